@@ -25,7 +25,7 @@ def main():
     na = []
     for p in props:
         pid = p['id']
-        if pid in CLAIMED and os.path.exists(os.path.join(HERE, 'props', pid + '.py')):
+        if pid in CLAIMED and os.path.exists(os.path.join(HERE, 'props', pid + '.py')) and os.path.exists(os.path.join(VERIF, 'lean', 'Flowdyn', 'Props', pid + '.lean')):
             tech, text, note, ref = CLAIMED[pid]
             checks.append(dict(
                 property_id=pid,
